@@ -114,7 +114,14 @@ check('C03', 'Hypothesis choice tapes decoded into model trees of CommonMark/GFM
       'findings are excluded by writer switches and announced as KNOWN-FINDING with hand-derived witnesses.',
       'DESIGN.md 5/C03')
 
+check('C13', 'Hypothesis choice tapes decoded into G4 documents whose writer records the source line of every block; parallel walk of model and token tree',
+      'hypothesis-sharded',
+      'The generator knows the 1-based line on which it wrote each block (through block-quote and list prefixes, lazy lines, blank-first '
+      'items, leading blank lines, definitions between blocks, table rows and cells); every block token of the parse must report exactly that line.',
+      'Sampling only; structurally different parses are left to C03 and counted as skipped.',
+      'DESIGN.md 5/C13')
+
 _PENDING = 'check not built yet in this revision (work in progress; technique applies, see DESIGN.md section 5)'
-for _p in ['C07', 'C09', 'C10', 'C13',
+for _p in ['C07', 'C09', 'C10',
            'C19']:
     NOT_YET[_p] = _PENDING
